@@ -220,10 +220,19 @@ impl Client2 {
 
     /// the whole compute_optional_state_transition table: for every current x desired x stop shape (none, plain, disc), in that nesting
     /// order over (Stopped, Connecting, Connected, PendingReconnect, Shutdown); the stop shape is installed through real Start / Stop
-    /// operations, the states through the verif setters.  Answers `ok <75 comma-separated cells>` (`-` = None)
+    /// operations (on an established connection, see d52fbbc), the states through the verif setters.  Answers `ok <75 comma-separated cells>` (`-` = None)
     pub fn transition_table(&mut self) -> TextResult<String> {
         let states = ["Stopped", "Connecting", "Connected", "PendingReconnect", "Shutdown"];
         let mut cells = Vec::new();
+        // a stop request keeps its DISCONNECT only while a connection is established: perform a real (MQTT 5) handshake first
+        self.client.handle_incoming_operation(OperationOptions::Start(None));
+        self.client.transition_to_state(ClientImplState::Connecting).map_err(|e| format!("table: {}", error_kind(&e)))?;
+        self.client.transition_to_state(ClientImplState::Connected).map_err(|e| format!("table: {}", error_kind(&e)))?;
+        let mut buffer: Vec<u8> = Vec::with_capacity(4096);
+        self.client.handle_service(&mut buffer).map_err(|e| format!("table: {}", error_kind(&e)))?;
+        self.client.handle_write_completion().map_err(|e| format!("table: {}", error_kind(&e)))?;
+        self.client.handle_incoming_bytes(&[0x20, 3, 0, 0, 0]).map_err(|e| format!("table: {}", error_kind(&e)))?;
+        if self.client.get_protocol_state() != ProtocolStateType::Connected { return Err("table: handshake failed".to_string()); }
         for current in states {
             for desired in states {
                 for shape in 0..3u8 {
